@@ -419,11 +419,11 @@ class C08(Check):
                 for j in range(nblk):
                     bursts.append((air.rate_burst(w, cc, k=rk if w.random() < 0.9 else None), "D", "rate"))
             else:
-                c = w.choice(["vh", "term", "vs", "ve", "ve", "hdr", "pre", "csbk", "rate", "rate"])
+                c = w.choice(["vh", "term", "vs", "ve", "ve", "hdr", "pre", "csbk", "rate", "rate", "other"])
                 b = {"vh": lambda: air.lc_burst(w, air.DataTypes.VoiceLCHeader, cc), "term": lambda: air.lc_burst(w, air.DataTypes.TerminatorWithLC, cc),
                      "vs": lambda: air.voice_burst(w, sync=w.choice(air.VOICE_SYNCS)), "ve": lambda: air.voice_burst(w, cc=cc, lcss=w.randrange(4), pi=w.randrange(2)),
                      "hdr": lambda: air.hdr_burst(w, cc), "pre": lambda: air.csbk_burst(w, cc, True), "csbk": lambda: air.csbk_burst(w, cc, False),
-                     "rate": lambda: air.rate_burst(w, cc)}[c]()
+                     "rate": lambda: air.rate_burst(w, cc), "other": lambda: air.other_burst(w, cc)}[c]()
                 bursts = [(b, "V" if c in ("vs", "ve") else "D", c)]
             # faults inside the transmission
             if rates and f.random() < rates.get("tx_abort", 0) and len(bursts) > 1:
@@ -465,6 +465,7 @@ class C08(Check):
         idx = {sk: 0 for sk in keys}
         ops = []
         burstiness = s.choice([1, 1, 3, 8])
+        endall = s.choice([0, 0, 0, 0.02, 0.06])  # the application gives up every open call now and then (TransmissionWatcher.end_all_transmissions)
         while True:
             live = [sk for sk in keys if idx[sk] < len(slot_streams[sk])]
             if not live:
@@ -476,6 +477,10 @@ class C08(Check):
                     idx[sk] += 1
                     if rates and f.random() < rates.get("clock_jump", 0):
                         ops.append({"kind": "clock_jump", "dt": f.choice([-86400.0, -1.0, 3600.0, 1e9])})
+                    if endall and s.random() < endall:
+                        ops.append({"kind": "end_all"})
+        if s.random() < 0.4:
+            ops.append({"kind": "end_all"})  # shutdown: whatever is still open is ended by the application
         case = {"knobs": knobs, "ops": ops}
         if k.random() < 0.2:
             from checks import c19
@@ -529,6 +534,11 @@ class C08(Check):
                 rx.clock["skew"] += op["dt"]
                 res.fault("clock_jump")
                 continue
+            if op["kind"] == "end_all":
+                res.fault("app_ends_all_transmissions")
+                if not self._end_all(res, rx, S, i):
+                    break
+                continue
             r = rx.feed(op["term"], op["ts"], bytes.fromhex(op["data"]), op["bt"], i)
             if r is None:
                 res.probe("unparseable_burst_skipped")
@@ -563,6 +573,96 @@ class C08(Check):
         res["sim_time"] = nbursts * 0.03
         res["digest"] = rx.log.digest()
         return res
+
+    def _end_all(self, res, rx, S, i):
+        """the application ends every open transmission (TransmissionWatcher.end_all_transmissions): no burst is involved, the same clauses apply --
+        never raises; every 'ended' belongs to a slot with an open 'started' of that kind and hands over that slot's header and blocks; such a slot is
+        idle with a fresh stream id afterwards; nothing is started"""
+        import sys as _sys
+
+        V = lambda oracle, site, detail: res.violate(oracle, site, detail, at=i)
+        n0 = len(rx.primary.ev)
+        issued0 = rx.seam.count
+        raised = None
+        old = _sys.stdout
+        _sys.stdout = rx.sink
+        try:
+            with rx.wd:
+                rx.watcher.end_all_transmissions()
+        except BaseException as e:
+            raised = f"{type(e).__name__}: {e}"
+        finally:
+            _sys.stdout = old
+            rx.sink.seek(0)
+            rx.sink.truncate()
+        evs = rx.primary.ev[n0:]
+        rx.log.add(rx.n, "*", "end_all", ([e[0] for e in evs], raised))
+        res["evals"] += 1
+        if raised:
+            V("C08.1 never-raises", "end_all:" + raised.split(":")[0], f"end_all_transmissions raised {raised}")
+            return False
+        for e in evs:
+            if e[0] == "started":
+                V("C08.2 ended-without-started", "end_all:started", f"end_all_transmissions delivered a 'started' ({e[2]})")
+                continue
+            kind, header, blocks = e[2], e[3], e[4]
+            got = [rx.handed_key(x) for x in blocks]
+            hk = rx.handed_key(header) if header is not None else None
+            open_slots = [sk for sk, st in sorted(S.items()) if st["unmatched"][kind] >= 1]
+            if not open_slots:
+                V("C08.2 ended-without-started", "end_all:" + kind, f"{e[0]} delivered by end_all_transmissions although no slot has an open 'started' of that kind")
+                continue
+            match = [sk for sk in open_slots if _same(got, S[sk]["win"]) and hk is not None and hk == S[sk]["hdr"].get("H" if kind == "DataTransmission" else "V")]
+            if not match:
+                V("C08.3 blocks-handed-over", "end_all:" + kind, f"{e[0]} from end_all_transmissions hands over {[g[0] for g in got]} / header {type(header).__name__}: "
+                  f"no slot with an open {kind} received exactly that since its start (open slots: {open_slots})")
+                continue
+            sk = match[0]
+            st = S[sk]
+            # fresh receiver: the same bursts since the start, then the same shutdown, must hand over the same
+            if len(st["since_start"]) <= 400 and st["since_start"]:
+                fres = core.RunResult()
+                saved = (air_tmod().secrets, air_tsmod().time)
+                try:
+                    fresh = air.Receiver({"entropy_seed": 7, "second_observer": False}, fres, "fresh")
+                    for d, bt in st["since_start"]:
+                        fresh.feed(sk[0], sk[1], bytes.fromhex(d), bt, i)
+                    m0 = len(fresh.primary.ev)
+                    _sys.stdout = rx.sink
+                    try:
+                        fresh.watcher.end_all_transmissions()
+                    finally:
+                        _sys.stdout = old
+                        rx.sink.seek(0)
+                        rx.sink.truncate()
+                    fe = [x for x in fresh.primary.ev[m0:] if x[0] != "started"]
+                except BaseException as ex:
+                    fe = [("raised " + type(ex).__name__,)]
+                finally:
+                    air_tmod().secrets, air_tsmod().time = saved
+                res.probe("fresh_receiver_comparisons")
+                if len(fe) != 1 or fe[0][0] != e[0] or [air.Receiver.full_key(x) for x in fe[0][4]] != [air.Receiver.full_key(x) for x in blocks] \
+                        or air.Receiver.full_key(fe[0][3]) != air.Receiver.full_key(header):
+                    V("C08.3 handed-over-depends-on-earlier-history", "end_all:" + kind, f"{e[0]} from end_all_transmissions differs from what a fresh receiver fed the "
+                      f"{len(st['since_start'])} bursts of this slot since the 'started' hands over on the same shutdown ({[x[0] for x in fe]})")
+            st["unmatched"][kind] = 0
+            st["win"] = []
+            st["hdr"] = {}
+            st["since_start"] = []
+            st["chain"] = None
+            st["sync_seen"] = False
+            st["seq_relax"] = True
+            st["app_ended"] = True  # see rule 5b: the stricter-than-stated "no letter before the first sync" is not applied to the call after an application-side end
+            tr = rx.tracker(*sk)
+            if tr.type.name != "Idle" or len(tr.blocks) != 0:
+                V("C08.4 idle-after-end", "end_all:" + kind, f"after {e[0]} (end_all_transmissions) the tracker of slot {sk} is {tr.type.name} holding {len(tr.blocks)} blocks")
+            ordinal = rx.seam.issued.get(bytes(tr.stream_no))
+            if ordinal is None or ordinal <= issued0:
+                V("C08.4 fresh-stream-id", "end_all:" + kind, f"stream id of slot {sk} after {e[0]} (end_all_transmissions) was handed out before the shutdown")
+            res["cov"].add(f"end_all|{kind}|{len(got)}blocks")
+        if rx.second is not None and len(rx.primary.ev) != len(rx.second.ev):
+            V("C08.7 observers-see-same-events", "end_all", f"primary observer saw {len(rx.primary.ev)} events, second observer {len(rx.second.ev)}")
+        return not res["viol"]
 
     def _fresh_receiver_oracle(self, res, st, r, op, i):
         """history independence of what is handed over: replay the bursts of this slot since the matching 'started' on a fresh receiver"""
@@ -683,7 +783,7 @@ class C08(Check):
             # not the previous call's position
             # (a Burst OBJECT that was delivered before still carries the label it was given then; the library does not touch the label before
             # the first sync, so for re-delivered objects this stricter-than-stated rule does not apply)
-            if label in "ABCDEF" and not r.get("reused"):
+            if label in "ABCDEF" and not r.get("reused") and not st.get("app_ended"):
                 V("C08.5 voice-labels", "before-first-sync", f"voice burst labelled {label} although this voice transmission has not had a voice-sync burst yet "
                   f"(labels are counted from each voice-sync burst on)")
             st["chain"] = None
@@ -696,11 +796,18 @@ class C08(Check):
             st["chain"] = want
         else:
             st["chain"] = None
+        if type0 == "VoiceTransmission" and cls != "ve":
+            st["app_ended"] = False  # a voice-sync or non-voice burst processed inside a voice transmission re-anchors the library's label position
         if evs:
             st["sync_seen"] = False  # a transmission started or ended during this burst: the next one has not had its sync yet
         # 6. receive sequence numbers
         seq = getattr(out, "sequence_no", None)
-        if st["prev"] is None or st["after_end"]:
+        relax = st.pop("seq_relax", False)
+        if relax:
+            # the slot's transmission was ended by end_all_transmissions, outside any burst: the counter restarts with this burst or the next
+            allowed = {0, 1} | ({(st["prev"] + 1) & 255} if st["prev"] is not None else set())
+            ended = True
+        elif st["prev"] is None or st["after_end"]:
             allowed = {0, 1}
         else:
             allowed = {(st["prev"] + 1) & 255}
